@@ -4,6 +4,7 @@ from __future__ import annotations
 
 import glob
 import itertools
+import json
 import os
 import re
 import shutil
@@ -135,6 +136,23 @@ def gen_inputs(tier):
         'version: "3"\nimpl can for A { k: ' + "[" * 50 + "1" + "]" * 50 + ", }",
     ):
         fam["literal"].append(("misc", t))
+    # nesting depth on both sides of the interpreter's recursion budget, in every recursive production
+    fam["deep"] = []
+    for n in (100, 200, 240, 245, 246, 250, 300, 500, 1000) + ((2000, 3000) if tier != "quick" else ()):
+        fam["deep"].append(("dyn-%d" % n, 'version: "3"\nstruct S { a @0: ' + "[" * n + "u8" + "]" * n + ", }\n"))
+        fam["deep"].append(("arr-%d" % n, 'version: "3"\nstruct S { a @0: ' + "[" * n + "u8" + ", 1]" * n + ", }\n"))
+        fam["deep"].append(("opt-%d" % n, 'version: "3"\nstruct S { a @0: ' + "Optional[" * n + "u8" + "]" * n + ", }\n"))
+        fam["deep"].append(("value-%d" % n, 'version: "3"\ndevice d { a: ' + "[" * n + "1" + "]" * n + ", }\n"))
+        fam["deep"].append(("undeclared-%d" % n, 'version: "3"\nstruct S { a @0: ' + "[" * n + "Nope" + "]" * n + ", }\n"))
+    # every import graph over the files {main, a} (thorough: {main, a, b}), each file importing 0-2 of them
+    names = ("main", "a") if tier == "quick" else ("main", "a", "b")
+    lists = [()] + [(x,) for x in names] + [(x, y) for x in names for y in names]
+    fam["modgraph"] = []
+    for combo in itertools.product(lists, repeat=len(names)):
+        files = {}
+        for nm, imports in zip(names, combo):
+            files[nm + ".fcp"] = 'version: "3"\n' + "".join("mod %s;\n" % i for i in imports) + "struct S_%s { x @0: u8, }\n" % nm
+        fam["modgraph"].append(("graph:" + ";".join("%s<-%s" % (nm, ",".join(im)) for nm, im in zip(names, combo)), json.dumps(files, sort_keys=True)))
     return fam
 
 
@@ -226,7 +244,15 @@ def make_worker(tier):
     def work(chunk):
         S = Stats()
         for family, label, text in chunk:
-            if family == "module":
+            if family == "modgraph":
+                td = tempfile.mkdtemp(prefix="fcpmc-c11-")
+                try:
+                    for fn, body in json.loads(text).items():
+                        open(os.path.join(td, fn), "w").write(body)
+                    one(S, family, label, text, via=os.path.join(td, "main.fcp"))
+                finally:
+                    shutil.rmtree(td, ignore_errors=True)
+            elif family == "module":
                 td = tempfile.mkdtemp(prefix="fcpmc-c11-")
                 try:
                     open(os.path.join(td, "main.fcp"), "w").write('version: "3"\nmod m1;\nstruct Z { z @0: u8, }\n')
@@ -262,7 +288,24 @@ def run_logger_histories(S, tier):
     from ..common import fork_histories
 
     depth = 3 if tier == "quick" else 4
-    live = {"logger": Logger({})}
+    live = {"logger": Logger({}), "errors": []}
+
+    def stale(lg):
+        """Re-render every error an EARLIER parse through this logger returned: it must still render, and
+        still quote the line of the text that produced it."""
+        out = []
+        for k, (text, err) in enumerate(live["errors"]):
+            try:
+                rendered = lg.error(err)
+            except Exception as e:  # noqa
+                out.append("error of parse #%d no longer renders: %s" % (k, type(e).__name__))
+                continue
+            lines = text.split("\n")
+            for msg, node, _w in err.msg:
+                if node is not None and 1 <= node.meta.line <= len(lines) and lines[node.meta.line - 1] not in rendered:
+                    out.append("error of parse #%d now quotes a line of another text" % k)
+                    break
+        return out
 
     def apply_op(op, hist):
         text = HIST_TEXTS[op]
@@ -271,9 +314,11 @@ def run_logger_histories(S, tier):
             res = get_fcp_from_string(text, lg)
         except Exception as e:  # noqa
             return {"exc": "%s: %s" % (type(e).__name__, str(e)[:200])}
+        st = stale(lg)
         if res.is_ok():
-            return {"ok": True}
+            return {"ok": True, "stale": st}
         err = res.err()
+        live["errors"].append((text, err))
         try:
             rendered = lg.error(err)
         except Exception as e:  # noqa
@@ -287,7 +332,7 @@ def run_logger_histories(S, tier):
                 bad.append("line %d of %d" % (node.meta.line, len(lines)))
             elif lines[node.meta.line - 1] not in rendered:
                 bad.append("quotes another text than line %d: %r" % (node.meta.line, lines[node.meta.line - 1]))
-        return {"err": True, "bad": bad, "rendered_tail": rendered[-300:] if bad else ""}
+        return {"err": True, "bad": bad, "rendered_tail": rendered[-300:] if bad else "", "stale": st}
 
     for hist, o in fork_histories(list(range(len(HIST_TEXTS))), depth, apply_op):
         S.count("states")
@@ -302,7 +347,10 @@ def run_logger_histories(S, tier):
             S.violation("C11.render", "C11.render/exception/logger-history", inp, expected="diagnostic string", actual=o)
         elif o.get("bad"):
             S.violation("C11.cite", "C11.cite/stale-or-missing-line/logger-history", inp, expected="cites and quotes a line of the text just parsed", actual=o)
-        S.add("outcomes", "hist:" + ("ok" if "ok" in o else "err"))
+        for what in sorted(set(re.sub(r"#\d+", "#k", w) for w in o.get("stale", []))):
+            kind = "no-longer-renders" if "renders" in what else "quotes-another-text"
+            S.violation("C11.cite", "C11.cite/earlier-error-after-a-later-parse-through-the-same-logger/%s" % kind, inp, expected="an error value stays renderable and keeps citing its own source", actual=o["stale"])
+        S.add("outcomes", "hist:" + ("ok" if "ok" in o else "err") + (":stale" if o.get("stale") else ""))
 
 
 def run(tier):
@@ -315,7 +363,8 @@ def run(tier):
     # the same literals pushed to a line number the (3-line) importing file does not have
     fam["module"] += [("module-late-" + l, t.replace('version: "3"\n', 'version: "3"\n\n/* pad */\n\n\nstruct Pad { p @0: u8, }\n\n', 1)) for l, t in fam["literal"] if t.startswith('version: "3"\n')]
     items = []
-    for family in ("literal", "module", "sequence", "mutation", "prefix"):
+    fam["module"] += [("module-" + l, t) for l, t in fam["deep"]]
+    for family in ("literal", "deep", "modgraph", "module", "sequence", "mutation", "prefix"):
         for label, text in fam[family]:
             items.append((family, label, text))
     r.bounds = {f: len(v) for f, v in fam.items()}
